@@ -33,7 +33,7 @@ def ruleSetNames (items : List TopItem) : List String :=
   items.filterMap fun | .ruleSet n _ => some n | _ => none
 
 /-- number of `type Error = ..;` declarations -/
-def errorTypeCount (items : List TopItem) : Nat :=
+def errorTypeDecls (items : List TopItem) : Nat :=
   items.countP fun | .errorType => true | _ => false
 
 /-! ## Regexes that elaborate -/
@@ -106,7 +106,7 @@ structure StaticOK (items : LexerDef) : Prop where
   /-- 1. rules at top level and `rule X { .. }` blocks are not mixed -/
   notMixed : mixedRules items = false
   /-- 2. `type Error` is declared at most once -/
-  errorTypeOnce : errorTypeCount items ≤ 1
+  errorTypeOnce : errorTypeDecls items ≤ 1
   /-- 3a. rule set names are pairwise distinct -/
   ruleSetsDistinct : (ruleSetNames items).Nodup
   /-- 3b. if there is a rule set, the first one is `Init` -/
